@@ -5,14 +5,15 @@ func init() {
 		p := &Plan{Property: "C11", Exhaustive: true}
 		th := o.Tier == "thorough"
 		num := []string{"float32", "float64", "int8", "int16", "int32", "int64", "uint8", "uint16", "uint32", "uint64"}
-		shapes := [][]int{{2}, {}}
+		// (1) and (1,1): one element without being a scalar
+		shapes := [][]int{{2}, {}, {1}, {1, 1}}
 		if th {
-			shapes = append(shapes, []int{2, 2}, []int{1, 2, 1})
+			shapes = append(shapes, []int{2, 2}, []int{1, 2, 1}, []int{1, 1, 1})
 		}
 		for i, from := range num {
 			for j, to := range num {
 				for k, s := range shapes {
-					if !th && k == 1 && (i+j)%3 != 0 {
+					if !th && k >= 1 && (i+j+k)%3 != 1 {
 						continue
 					}
 					p.Jobs = append(p.Jobs, Job{Harness: "opset13.H_C11_cast", Case: map[string]interface{}{"from": from, "to": to, "shape": s}})
@@ -54,7 +55,7 @@ func init() {
 		p.Jobs = append(p.Jobs, Job{Harness: "opset13.H_C11_cos", Case: map[string]interface{}{"dtype": "float32", "n": 2, "nval": -1, "vshape": []int{1}}})
 		p.Jobs = append(p.Jobs, Job{Harness: "opset13.H_C11_cos", Case: map[string]interface{}{"dtype": "float32", "n": 4, "nval": 1, "vshape": []int{1}}})
 		p.Bounds = []string{
-			"Cast: all 10x10 numeric (source, target) pairs on shape (2) (and scalars / more shapes in thorough), every element symbolic; non-numeric targets by code (0,8,9,10,14,15,16,17,-1) and one symbolic 32-bit code constrained to differ from the ten numeric codes",
+			"Cast: all 10x10 numeric (source, target) pairs on shape (2), a third of them each on shapes (), (1), (1,1) (all, and more shapes, in thorough), every element symbolic; non-numeric targets by code (0,8,9,10,14,15,16,17,-1) and one symbolic 32-bit code constrained to differ from the ten numeric codes",
 			"Constant: every attribute form (value_float(s), value_int(s), value with int64 and float32 tensors of rank 0..2, sparse_value, value_string(s), unknown name, no attribute, two attributes) with symbolic payloads",
 			"ConstantOfShape: requested shape of 1..3 (4) entries symbolic in [-1,3], value attribute of float32/float64/int64/int32 with symbolic element, of 2 elements, of rank 0, or absent; the same operator instance applied to two requests in a row",
 		}
